@@ -61,9 +61,32 @@ def write_back_table(r, b, we):
     rets += [(c.block, describe_call(b, c)) for c in b.calls if c.dest is not None and c.dest[0] == 0 and not c.dest[1]]
     dw = [c for c in b.calls if c.name == "do_write"]
     want = {"Done": (False, False), "RequiresEvent": (False, True), "DataStillAvailable": (True, False)}
+    sw = [si for si in b.switches_on(lambda p_, si: True) if si.get("kind") == "disc" and (si.get("adt") or "").endswith("WriteResult")]
+    ve = b.variant_edges(sw[0]["block"]) if len(sw) == 1 else None
+    exits = list(b.exits())
     for v, (stay, flag) in want.items():
-        sites = [c for c in dw if _wr_consistent(dom_guards(b, c.block), v)]
-        flags = {_wr_value(describe_operand(b, c.args[1]), v) for c in sites}
+        flags, ans, sites = set(), set(), []
+        if ve and v in ve:
+            # follow the values from this answer's arm to the call (through tuples / Option the arms may pack them into)
+            for c in dw:
+                vals = b.const_values([ve[v]], c.block, c.args[1])
+                if vals:
+                    sites.append(c)
+                    if None in vals:
+                        vals = (vals - {None}) | {_wr_value(describe_operand(b, c.args[1]), v)}
+                    flags |= vals
+            for e in exits:
+                vals = b.const_values([ve[v]], e, ["c", [0, []]])
+                if None in vals:
+                    vals = (vals - {None}) | {_wr_value(d_, v) for i_, d_ in rets if _wr_consistent(dom_guards(b, i_), v)}
+                ans |= vals
+        else:
+            sites = [c for c in dw if _wr_consistent(dom_guards(b, c.block), v)]
+            flags = {_wr_value(describe_operand(b, c.args[1]), v) for c in sites}
+            for c in sites:
+                for i, d in rets:
+                    if (b.dominates(c.block, i) or b.reaches(c.block, {i})) and _wr_consistent(dom_guards(b, i), v):
+                        ans.add(_wr_value(d, v))
         r.check(len(sites) >= 1 and flags == {flag}, "retain/do_write-flag/%s" % v, sites[0].loc() if sites else we.loc(), "after %s: do_write(tx, %s)" % (v, str(flag).lower()),
                 "after write_event answered %s the write is scheduled with requires_event = %s (expected %s): %s" % (
                     v, sorted(str(x) for x in flags), flag,
@@ -72,12 +95,6 @@ def write_back_table(r, b, we):
         for c in sites:
             ps = [x for x in b.calls if x.name == "push" and (x.self_adt or "").endswith("futures_unordered::FuturesUnordered") and b.dominates(c.block, x.block)]
             r.check(bool(ps), "retain/do_write-scheduled/%s" % v, c.loc(), "the write future is pushed to pending_writes")
-        # what retain answers on the paths that performed this write
-        ans = set()
-        for c in sites:
-            for i, d in rets:
-                if (b.dominates(c.block, i) or b.reaches(c.block, {i})) and _wr_consistent(dom_guards(b, i), v):
-                    ans.add(_wr_value(d, v))
         key = "retain/DataStillAvailable=>stay-dirty" if v == "DataStillAvailable" else "retain/%s=>clean" % v
         r.check(ans == {stay}, key, we.loc(), "%s: the lane %s dirty_items" % (v, "stays in" if stay else "leaves"), "%s: retain answers %s (expected %s)" % (v, sorted(str(x) for x in ans), stay))
     return dw
